@@ -129,24 +129,48 @@ pub fn child_times_out(
     file_times_out(bin, &path, limit)
 }
 
+/// True iff the child neither finishes nor reaches a new scheduling point for `limit`: the
+/// child prints its global event sequence number five times a second, and the clock is reset
+/// whenever that number has changed, so a run that is merely slow (a loaded machine) is not
+/// mistaken for one that never returns.
 pub fn file_times_out(bin: &std::path::Path, path: &str, limit: std::time::Duration) -> bool {
     let Ok(mut child) = Command::new(bin)
         .arg("transcript")
         .arg(path)
-        .stdout(Stdio::null())
+        .env("ORXSIM_HEARTBEAT", "1")
+        .stdout(Stdio::piped())
         .stderr(Stdio::null())
         .spawn()
     else {
         return false;
     };
-    let t0 = Instant::now();
+    let (tx, rx) = mpsc::channel::<u64>();
+    if let Some(out) = child.stdout.take() {
+        std::thread::spawn(move || {
+            for line in BufReader::new(out).lines().map_while(Result::ok) {
+                if let Some(v) = line.strip_prefix("HB ").and_then(|v| v.parse::<u64>().ok()) {
+                    if tx.send(v).is_err() {
+                        break;
+                    }
+                }
+            }
+        });
+    }
+    let mut last_change = Instant::now();
+    let mut last_seq = u64::MAX;
     loop {
         match child.try_wait() {
             Ok(Some(_)) => return false,
             Ok(None) => {}
             Err(_) => return false,
         }
-        if t0.elapsed() > limit {
+        while let Ok(v) = rx.try_recv() {
+            if v != last_seq {
+                last_seq = v;
+                last_change = Instant::now();
+            }
+        }
+        if last_change.elapsed() > limit {
             let _ = child.kill();
             let _ = child.wait();
             return true;
